@@ -338,7 +338,61 @@ def default_text(t, v):
     raise ValueError(k)
 
 
-def type_text(t, ind=1):
+class RefCtx:
+    """Rendering context that reorganises a type without changing its meaning: sub-types are hoisted
+    into named type assignments, integer bounds into value assignments, and (flagged) constraints are
+    applied to a type reference instead of the builtin type."""
+
+    def __init__(self, rng, p_type=0.3, p_value=0.3, p_con_on_ref=0.0):
+        self.rng = rng
+        self.p_type, self.p_value, self.p_con_on_ref = p_type, p_value, p_con_on_ref
+        self.defs = []          # assignment texts, in order of creation
+        self.n = 0
+        self.flags = set()
+
+    def fresh(self, prefix):
+        self.n += 1
+        return '%s%d' % (prefix, self.n)
+
+    def bound(self, v):
+        if v is None or self.rng.random() >= self.p_value:
+            return None
+        name = self.fresh('v')
+        self.defs.append('%s INTEGER ::= %d' % (name, v))
+        self.flags.add('value-reference-bound')
+        return name
+
+
+def type_text(t, ind=1, ctx=None):
+    if ctx is not None and ind > 1 and ctx.rng.random() < ctx.p_type:
+        k = t['k']
+        if k in ('octs', 'bits', 'str', 'seqof') and t['size'] and ctx.rng.random() < ctx.p_con_on_ref:
+            # T ::= <unconstrained>; use  T (SIZE(..))
+            base = dict(t, size=None)
+            name = ctx.fresh('R')
+            ctx.defs.append('%s ::= %s' % (name, type_text(base, 1, ctx)))
+            ctx.flags.add('size-on-reference')
+            if k == 'seqof':
+                # SIZE applies to the referenced SEQUENCE OF
+                return '%s%s' % (name, size_text(t['size']))
+            return '%s%s' % (name, size_text(t['size']))
+        name = ctx.fresh('T')
+        ctx.defs.append('%s ::= %s' % (name, type_text(t, 1, _NoHoist(ctx))))
+        ctx.flags.add('type-reference')
+        return name
+    return _type_text(t, ind, ctx)
+
+
+class _NoHoist:
+    """wrapper that forbids hoisting the node itself (but allows hoisting below it)"""
+
+    def __init__(self, ctx):
+        self.ctx = ctx
+
+
+def _type_text(t, ind, ctx):
+    if isinstance(ctx, _NoHoist):
+        ctx = ctx.ctx
     k = t['k']
     pad = '  ' * ind
     if k == 'bool':
@@ -350,6 +404,9 @@ def type_text(t, ind=1):
             return 'INTEGER'
         lo = 'MIN' if t['lo'] is None else str(t['lo'])
         hi = 'MAX' if t['hi'] is None else str(t['hi'])
+        if ctx is not None:
+            lo = ctx.bound(t['lo']) or lo
+            hi = ctx.bound(t['hi']) or hi
         return 'INTEGER (%s..%s%s)' % (lo, hi, ', ...' if t['ext'] else '')
     if k == 'enum':
         items = ['%s(%d)' % nv for nv in t['root']]
@@ -364,26 +421,26 @@ def type_text(t, ind=1):
     if k == 'str':
         return t['kind'] + size_text(t['size'])
     if k == 'seqof':
-        return 'SEQUENCE%s OF %s' % (size_text(t['size']), type_text(t['elem'], ind))
+        return 'SEQUENCE%s OF %s' % (size_text(t['size']), type_text(t['elem'], ind + 1, ctx))
     if k == 'seq':
-        items = [member_text(m, ind + 1) for m in t['root']]
+        items = [member_text(m, ind + 1, ctx) for m in t['root']]
         if t['ext'] is not None:
             items.append('...')
-            items += [member_text(m, ind + 1) for m in t['ext']]
+            items += [member_text(m, ind + 1, ctx) for m in t['ext']]
         if not items:
             return 'SEQUENCE { }'
         return 'SEQUENCE {\n' + ',\n'.join(pad + '  ' + i for i in items) + '\n' + pad + '}'
     if k == 'choice':
-        items = ['%s %s' % (n, type_text(at, ind + 1)) for n, at in t['root']]
+        items = ['%s %s' % (n, type_text(at, ind + 1, ctx)) for n, at in t['root']]
         if t['ext'] is not None:
             items.append('...')
-            items += ['%s %s' % (n, type_text(at, ind + 1)) for n, at in t['ext']]
+            items += ['%s %s' % (n, type_text(at, ind + 1, ctx)) for n, at in t['ext']]
         return 'CHOICE {\n' + ',\n'.join(pad + '  ' + i for i in items) + '\n' + pad + '}'
     raise ValueError(k)
 
 
-def member_text(m, ind):
-    s = '%s %s' % (m['name'], type_text(m['t'], ind))
+def member_text(m, ind, ctx=None):
+    s = '%s %s' % (m['name'], type_text(m['t'], ind, ctx))
     if m['opt']:
         s += ' OPTIONAL'
     elif m['default'] is not None:
@@ -391,9 +448,16 @@ def member_text(m, ind):
     return s
 
 
-def module_text(types, name='M', tags='AUTOMATIC TAGS'):
-    """types: list of (TypeName, type)"""
-    body = '\n'.join('%s ::= %s\n' % (n, type_text(t)) for n, t in types)
+def module_text(types, name='M', tags='AUTOMATIC TAGS', ctx=None):
+    """types: list of (TypeName, type); with a RefCtx the types are rendered reorganised
+    (hoisted sub-types, value references) and the helper assignments are appended."""
+    parts = ['%s ::= %s\n' % (n, type_text(t, 1, _NoHoist(ctx) if ctx is not None else None)) for n, t in types]
+    if ctx is not None:
+        extra = list(ctx.defs)
+        ctx.rng.shuffle(extra)
+        k = ctx.rng.randint(0, len(extra))
+        parts = [d + '\n' for d in extra[:k]] + parts + [d + '\n' for d in extra[k:]]
+    body = '\n'.join(parts)
     return '%s DEFINITIONS %s ::= BEGIN\n\n%s\nEND\n' % (name, tags, body)
 
 
